@@ -36,6 +36,9 @@ func isMathInt(t types.Type) bool {
 	return ok && n.Obj().Pkg() != nil && n.Obj().Pkg().Path() == "cosmossdk.io/math" && n.Obj().Name() == "Int"
 }
 
+// zV is a verif.Z: an unbounded specification integer.
+type zV struct{ t *Term }
+
 type opaque struct {
 	tag  string
 	id   int
